@@ -23,6 +23,7 @@ func init() {
 	register(&Rule{ID: "C18.ORDER", Min: 2, Doc: "search and reconstruction iterate the neighbours of a node in the same (stored) order", Run: runC18Order})
 	register(&Rule{ID: "C15.CONFPAT", Min: 1, Doc: "every ignore pattern of the configuration file is compiled on its own", Run: runC15ConfPat})
 	register(&Rule{ID: "C11.FILTER", Min: 2, Doc: "the matcher remembers an object filter on every path and the index handler consults it", Run: runC11Filter})
+	register(&Rule{ID: "C02.SRC", Min: 2, Doc: "clock, random and process-specific values only feed the debug log", Run: runC02Src})
 	register(&Rule{ID: "C01.REPEAT", Min: 3, Doc: "the count of strings.Repeat is never negative", Run: runC01Repeat})
 }
 
@@ -979,5 +980,93 @@ func runC11Filter(c *Ctx) {
 		c.ok("(*UntrustedInputChecker).onIndexAccess|filter consulted", oi.Pos(), "the index handler distinguishes an index after a filter")
 	} else {
 		c.bad("(*UntrustedInputChecker).onIndexAccess|filter consulted", oi.Pos(), "the index handler does not look at the filter flag")
+	}
+}
+
+// ---- C02.SRC ----
+
+// Values that differ from run to run (clock, random numbers, process ids, host names, pointer formatting) never reach a
+// diagnostic or the result output; they may only feed the verbose/debug log.
+func runC02Src(c *Ctx) {
+	p := c.P
+	srcs := map[string]bool{"time.Now": true, "time.Since": true, "os.Getpid": true, "os.Getppid": true, "os.Hostname": true}
+	occ := map[string]int{}
+	for _, fn := range p.Funcs {
+		eachInstr(fn, func(_ *ssa.BasicBlock, _ int, in ssa.Instruction) {
+			call, ok := in.(*ssa.Call)
+			if !ok {
+				return
+			}
+			name := calleeFullName(&call.Call)
+			if !srcs[name] && !strings.HasPrefix(name, "math/rand.") && !strings.HasPrefix(name, "math/rand/v2.") && !strings.HasPrefix(name, "crypto/rand.") {
+				return
+			}
+			k := FuncName(fn) + "|" + name
+			occ[k]++
+			construct := fmt.Sprintf("%s#%d", k, occ[k])
+			// forward slice
+			bad := ""
+			seen := map[ssa.Value]bool{}
+			var walk func(v ssa.Value, d int)
+			walk = func(v ssa.Value, d int) {
+				if d > 10 || seen[v] || v.Referrers() == nil {
+					return
+				}
+				seen[v] = true
+				for _, ref := range *v.Referrers() {
+					switch r := ref.(type) {
+					case *ssa.Call:
+						cn := calleeFullName(&r.Call)
+						if f := staticCallee(&r.Call); f != nil && inPkgName(f) {
+							cn = FuncName(f)
+						}
+						switch {
+						case cn == "(*Linter).log" || cn == "(*Linter).debug" || cn == "(*Visitor).reportElapsedTime" || strings.HasSuffix(cn, ").Debug") || strings.HasSuffix(cn, ").debug"):
+							// log only
+						case cn == "time.Since" || strings.HasPrefix(cn, "(time.Time).") || strings.HasPrefix(cn, "(time.Duration)."):
+							walk(r, d+1)
+						case strings.HasPrefix(cn, "fmt.Fprint"):
+							// writing to a debug/log writer is fine
+							if f, _ := fieldLoad(unwrap(r.Call.Args[0])); strings.HasSuffix(f, ".dbg") || strings.HasSuffix(f, ".logOut") {
+								break
+							}
+							bad = cn + " to " + symName(r.Call.Args[0])
+						case emitsDiag(r) || cn == "(*RuleBase).Errorf" || cn == "(*RuleBase).Error" || strings.HasPrefix(cn, "fmt.Sprint") || cn == "fmt.Errorf":
+							bad = cn
+						default:
+							walk(r, d+1)
+						}
+					case *ssa.Store:
+						if al, ok := r.Addr.(*ssa.Alloc); ok {
+							walk(al, d+1)
+							for _, r2 := range *al.Referrers() {
+								if ld, ok := r2.(*ssa.UnOp); ok {
+									walk(ld, d+1)
+								}
+							}
+						} else if fa, ok := r.Addr.(*ssa.FieldAddr); ok {
+							bad = "field " + fieldAddrName(fa)
+						} else if ia, ok := r.Addr.(*ssa.IndexAddr); ok {
+							// an element of a variadic argument list
+							if al, ok := ia.X.(*ssa.Alloc); ok {
+								for _, r2 := range *al.Referrers() {
+									if sl, ok := r2.(*ssa.Slice); ok {
+										walk(sl, d+1)
+									}
+								}
+							}
+						}
+					case ssa.Value:
+						walk(r, d+1)
+					}
+				}
+			}
+			walk(call, 0)
+			if bad == "" {
+				c.ok(construct, call.Pos(), "only feeds elapsed-time figures of the verbose/debug log")
+			} else {
+				c.bad(construct, call.Pos(), "a value that differs from run to run reaches "+bad+": the output is not a function of the inputs")
+			}
+		})
 	}
 }
